@@ -3,10 +3,14 @@ import GV.Generated.Keywords
 
 /-!
   C01 — obligations over facts re-extracted from /repo on every run (GV/Generated/Keywords.lean is written by
-  checks/c01.py: `reservedKeywords` through the hook `compiler.VerifC16ReservedKeywords`, `usedUnqualified` by scanning the
-  JavaScript templates — string literals with statement / expression punctuation — of compiler/*.go for identifiers that
-  are JavaScript globals or special names and are written unqualified: not after `.`, `$` or a format verb).
-  If a keyword is deleted from compiler.go, or a template starts using another global unqualified, these no longer check.
+  checks/c01.py):
+    * `rootSeeded`       names with `allVars[name] > 0` in a fresh root function context (`newRootCtx`, probed through the
+                         hook for every candidate name);
+    * `reservedKeywords` the keyword list (`compiler.VerifC16ReservedKeywords`);
+    * `usedUnqualified`  identifiers that are JavaScript globals (static list ∪ the own properties of Node's global object)
+                         or special names and occur UNQUALIFIED — not after `.`, `$` or a format verb — in the JavaScript
+                         templates of the code generator (string literals of compiler/**/*.go).
+  If a keyword is deleted, or a template starts using another global by its bare name, these no longer check.
 -/
 namespace GV.Props.C01
 open GV.Generated
@@ -19,33 +23,26 @@ def esReserved : List String :=
    "super", "switch", "this", "throw", "true", "try", "typeof", "var", "void", "while", "with", "yield",
    "let", "static", "implements", "interface", "package", "private", "protected", "public", "arguments", "eval"]
 
-/-- unqualified globals that are NOT reserved in the unchanged tree: the recorded findings -/
-def knownMissing : List String := ["console", "Number", "Uint8Array", "DataView"]
+/-- **reserved_covers_es** — every ECMAScript reserved word is seeded into the root context -/
+theorem reserved_covers_es : esReserved.all (fun w => rootSeeded.contains w) = true := by decide
 
-/-- **reserved_covers_es** — every ECMAScript reserved word is in the list the code seeds the root context with -/
-theorem reserved_covers_es : esReserved.all (fun w => reservedKeywords.contains w) = true := by decide
-
-/-- the model's list (`GV.Names.reserved`, which `names_distinct_plain` is about) is exactly the extracted one -/
+/-- the model's list (`GV.NamesPlain.reservedAll`, which `names_distinct_plain` is about) is exactly the extracted one -/
 theorem reserved_model_exact :
-    GV.Names.reserved.all (fun r => reservedKeywordBytes.contains r) = true ∧
-    reservedKeywordBytes.all (fun r => GV.Names.reserved.contains r) = true := by decide
+    GV.NamesPlain.reservedAll.all (fun r => rootSeededBytes.contains r) = true ∧
+    rootSeededBytes.all (fun r => GV.NamesPlain.reservedAll.contains r) = true := by decide
 
-/-- full strength (NOT claimed): every identifier the generated code uses unqualified is reserved -/
-def reserved_covers_used_full : Prop := usedUnqualified.all (fun w => reservedKeywords.contains w) = true
+/-- **reserved_covers_used** (full strength since the repair `fixes/C01-reserve-globals.patch`) — every identifier the
+    generated code uses unqualified is seeded into the root context, hence (`names_distinct_plain`) never handed out to a
+    Go object: no Go identifier can shadow a global the generated code relies on. -/
+theorem reserved_covers_used : usedUnqualified.all (fun w => rootSeeded.contains w) = true := by decide
 
-/-- … it fails: `console` (println), `Number`, `Uint8Array`, `DataView` are used unqualified and can be shadowed -/
-theorem reserved_misses_console : "console" ∈ usedUnqualified ∧ "console" ∉ reservedKeywords := by decide
+/-- REPAIRED DEFECT — the keyword list alone does not cover them: `console` (println) is used unqualified and is not a
+    keyword; it is reserved through `reservedGlobals` now. -/
+theorem keywords_alone_miss_console :
+    "console" ∈ usedUnqualified ∧ "console" ∉ reservedKeywords ∧ "console" ∈ rootSeeded := by decide
 
-theorem reserved_covers_used_counterexample : ¬ reserved_covers_used_full := by
-  unfold reserved_covers_used_full
-  decide
-
-/-- **reserved_covers_used_partial** — apart from the recorded ones, every unqualified identifier is reserved -/
-theorem reserved_covers_used_partial :
-    usedUnqualified.all (fun w => knownMissing.contains w || reservedKeywords.contains w) = true := by decide
-
-/-- the exclusion is not vacuous: `arguments`, `this`, `undefined` are used unqualified and are reserved -/
+/-- the obligation is not vacuous -/
 example : "arguments" ∈ usedUnqualified ∧ "this" ∈ usedUnqualified ∧ "undefined" ∈ usedUnqualified ∧
-    "arguments" ∈ reservedKeywords ∧ "this" ∈ reservedKeywords ∧ "undefined" ∈ reservedKeywords := by decide
+    "Uint8Array" ∈ usedUnqualified := by decide
 
 end GV.Props.C01
